@@ -27,7 +27,7 @@ QUERIES = ['', 'zq_n=7&zq_f=2.5&zq_s=x', 'zq_n=abc', 'zq_n=&zq_f=1.5x', 'zq_n=x&
            # the profiler's secondary parameter without its trigger; look-alikes of the trigger
            '_prof_sort=latest', '_prof_sort=', '_prof_sort=time&zq_n=1', '_profile=1&prof=1', '_PROF=true']
 COOKIES = [None, 'clastic_cookie=garbage', 'clastic_cookie="eyJhIjoxfQ==?expires=x&k=v"', 'clastic_cookie=; other=1', 'clastic_cookie=\xff\xfe?a', 'a=b; clastic_cookie=x?y=z=w']
-SCRIPTS = ['', '/mnt', '/a b/\xc3\xa9']
+SCRIPTS = ['', '/mnt', '/a b/\xc3\xa9', None]          # None: the SCRIPT_NAME key is absent from the environ (PEP 3333 allows that when empty)
 FORMS = [b'x=hello+world&y=2', b'x=1&zp_n=abc&zq_unused2=v', b'zp_n=&zp_f=--1', b'zp_n=12&zp_f=1e3&x=%ff']
 SCENARIOS = ['small', 'large', 'random', 'binary', 'empty', 'streamed', 'ctx', 'ctxfalsy', 'ctxlist', 'redirect', 'raise403', 'ret404', 'raise500',
              'ret503', 'nb403', 'boom', 'unknown', 'wrongmethod', 'form', 'status201', 'nocontent', 'preencoded', 'unicode']
